@@ -78,14 +78,14 @@ Qed.
 Definition istep (keys : list key) (m : tmap) (now : Z) (i : info) (e : tev) : info :=
   match e with
   | TSet k _ _ tags => iupd i k tags
-  | TIncr k _ tags => match s_get m now k with Some (VInt _) | None => iupd i k tags | Some _ => i end
+  | TIncr k _ _ tags => match s_get m now k with Some (VInt _) | None => iupd i k tags | Some _ => i end
   | TDel k => iupd i k []
   | TDelPrefix p => fun k => if mems k keys && isSome (drop_prefix p k) then [] else i k
   | TDeleteTags t => fun k => if mems k (set_of m now (tag_key t)) then [] else i k
   end.
 Definition ev_ok (e : tev) : Prop :=
   match e with
-  | TSet k _ ttl _ | TIncr k ttl _ => ttl = 0 /\ not_tagkey k
+  | TSet k _ ttl _ | TIncr k _ ttl _ => ttl = 0 /\ not_tagkey k
   | TDel k => not_tagkey k
   | _ => True
   end.
@@ -199,11 +199,11 @@ Qed.
 Lemma inv_step reg keys m i now e : Forall not_tagkey keys -> ev_ok e -> Inv m i -> Inv (tag_step reg keys m now e) (istep keys m now i e).
 Proof.
   intros Hkeys He HI. pose proof HI as (N & A & C). unfold tag_step. rewrite purge_id by exact N.
-  destruct e as [k v ttl tags|k ttl tags|k|p|t]; cbn [istep].
+  destruct e as [k v ttl tags|k by_ ttl tags|k|p|t]; cbn [istep].
   - destruct He as [-> Hk]. apply inv_write; assumption.
   - destruct He as [-> Hk]. destruct (s_get m now k) as [[z| | | | | | |]|] eqn:G; try exact HI.
-    + assert (E : (if z + 1 =? 1 then 0 else 0) = 0) by (destruct (z + 1 =? 1); reflexivity). rewrite E. apply inv_write; assumption.
-    + apply inv_write; assumption.
+    + assert (E : (if z + by_ =? 1 then 0 else 0) = 0) by (destruct (z + by_ =? 1); reflexivity). rewrite E. apply inv_write; assumption.
+    + assert (E : (if by_ =? 1 then 0 else 0) = 0) by (destruct (by_ =? 1); reflexivity). rewrite E. apply inv_write; assumption.
   - cbn in He. destruct (s_look m now k) eqn:L; [apply inv_delete; assumption|].
     apply inv_forget_absent; [exact HI|]. rewrite s_look_nottl in L by exact N. exact L.
   - assert (Eq : fold_left (fun m' k => match drop_prefix p k with
